@@ -21,20 +21,31 @@ KEY = os.path.join(FIXTURES, "key.pem")
 _ctx_cache: dict[tuple, ssl.SSLContext] = {}
 
 
-def make_context(server_side: bool, version: str = "1.3") -> ssl.SSLContext:
-    """Contexts are cached per (role, version): building one costs ~1 ms; they hold no per-connection state
-    (session cache disabled so that no run influences the next)."""
-    key = (server_side, version)
+def make_context(server_side: bool, version: str = "1.3", pha: bool = False) -> ssl.SSLContext:
+    """Contexts are cached per (role, version, pha): building one costs ~1 ms; they hold no per-connection state
+    (session cache disabled so that no run influences the next).
+
+    pha=True (TLS 1.3 only): post-handshake client authentication is enabled; the client context carries a certificate,
+    the server context can ask for it after the handshake (``TLSEngine.request_client_cert``).  It is the one way the
+    stdlib offers to make a *read* on the client side produce cipher-text (the answer to the CertificateRequest)."""
+    key = (server_side, version, pha)
     ctx = _ctx_cache.get(key)
     if ctx is not None:
         return ctx
     if server_side:
         ctx = ssl.SSLContext(ssl.PROTOCOL_TLS_SERVER)
         ctx.load_cert_chain(CERT, KEY)
+        if pha:
+            ctx.load_verify_locations(CERT)
+            ctx.verify_mode = ssl.CERT_REQUIRED
+            ctx.post_handshake_auth = True
     else:
         ctx = ssl.SSLContext(ssl.PROTOCOL_TLS_CLIENT)
         ctx.load_verify_locations(CERT)
         ctx.check_hostname = True
+        if pha:
+            ctx.load_cert_chain(CERT, KEY)
+            ctx.post_handshake_auth = True
     v = ssl.TLSVersion.TLSv1_3 if version == "1.3" else ssl.TLSVersion.TLSv1_2
     ctx.minimum_version = v
     ctx.maximum_version = v
@@ -50,10 +61,10 @@ def make_context(server_side: bool, version: str = "1.3") -> ssl.SSLContext:
 class TLSEngine:
     """ssl.SSLObject + two MemoryBIOs, driven explicitly.  No I/O."""
 
-    def __init__(self, server_side: bool, version: str = "1.3", server_hostname: str | None = "sim.host"):
+    def __init__(self, server_side: bool, version: str = "1.3", server_hostname: str | None = "sim.host", pha: bool = False):
         self.incoming = ssl.MemoryBIO()
         self.outgoing = ssl.MemoryBIO()
-        ctx = make_context(server_side, version)
+        ctx = make_context(server_side, version, pha)
         self.obj = ctx.wrap_bio(self.incoming, self.outgoing, server_side=server_side, server_hostname=None if server_side else server_hostname)
         self.handshake_done = False
         self.plain_in = bytearray()
@@ -84,6 +95,14 @@ class TLSEngine:
     def close_notify(self) -> None:
         self.want_unwrap = True
         self.step()
+
+    def request_client_cert(self) -> None:
+        """server side, TLS 1.3, pha=True: ask for the client's certificate; the CertificateRequest leaves with the next write"""
+        self.obj.verify_client_post_handshake()
+
+    @property
+    def client_cert_received(self) -> bool:
+        return bool(self.obj.getpeercert())
 
     def step(self) -> None:
         if self.error is not None:
@@ -144,10 +163,10 @@ class TLSPeer:
                     read while a write is stuck (legal; harmless as long as the other side keeps reading).
     """
 
-    def __init__(self, world: World, sock: SimSocket, server_side: bool, version: str = "1.3", shape: str = "eager"):
+    def __init__(self, world: World, sock: SimSocket, server_side: bool, version: str = "1.3", shape: str = "eager", pha: bool = False):
         self.world = world
         self.sock = sock
-        self.engine = TLSEngine(server_side, version)
+        self.engine = TLSEngine(server_side, version, pha=pha)
         self.shape = shape
         self.out_pending = bytearray()
         self.cipher_in = 0
